@@ -21,6 +21,9 @@ import (
 // Nasty is the nasty-string set N of DESIGN.md.
 var Nasty = []string{"", "a", "\r\n", "\n", "\r", "x\r\ny", "\r\n+OK\r\n", "\r\n:1\r\n", "\r\n$-1\r\n", "\x00", "$-1", "*1", "\xff"}
 
+// NastyMore extends the set in the thorough tier.
+var NastyMore = []string{"\n\r", "\r\r\n", "x\ry", "x\ny", "\r\n*1\r\n$4\r\nPING\r\n", "\r\n-ERR forged\r\n", "+OK", "\r\n\r\n", "a\r", "\na"}
+
 type c04Case struct {
 	Kind   string   `json:"kind"` // client | toplevel | handler | store
 	Input  []byte   `json:"input"`
@@ -131,6 +134,9 @@ func c04Check(cs c04Case) (clause, detail string) {
 }
 
 func c04Run(c *fw.Ctx) {
+	if c.Thorough() && len(Nasty) == 13 {
+		Nasty = append(Nasty, NastyMore...)
+	}
 	ping := grammar.Encode([]string{"PING"})
 	run := func(cs c04Case, key string) {
 		if !c.Mine() {
@@ -150,7 +156,7 @@ func c04Run(c *fw.Ctx) {
 		shapes := 0
 		grammar.EachWellFormed(s, true, 1, func(r grammar.Req) {
 			shapes++
-			if shapes > 12 {
+			if shapes > 12 && c.Quick() {
 				return
 			}
 			for pos := 0; pos < len(r.Args); pos++ {
@@ -164,7 +170,7 @@ func c04Run(c *fw.Ctx) {
 					run(c04Case{Kind: "client", Input: concat(grammar.Encode(a), ping), NReq: 2}, s.Name+"|client-"+where)
 				}
 			}
-			if shapes <= 2 {
+			if shapes <= 2 || (c.Thorough() && shapes <= 40) {
 				for p1 := 0; p1 < len(r.Args); p1++ {
 					for p2 := p1 + 1; p2 < len(r.Args); p2++ {
 						for _, n1 := range []string{"\r\n+OK\r\n", "\r", "\n", ""} {
@@ -248,7 +254,7 @@ func init() {
 	fw.Register(&fw.Prop{
 		ID:          "C04",
 		Level:       "exploration",
-		Rule:        "(a) every valid request shape of the grammar (<=12 shapes per command) with each argument position, command name included, replaced by each of 13 nasty strings (CR, LF, CRLF followed by forged +OK / :1 / $-1 frames, NUL, 0xff, type characters), pairs of positions for the first shapes; 21 non-command top-level values (status, error, integer, bulk, null, empty array, null/integer/status/error/nested first element), alone and doubled inside a pipeline; (b) 29 trigger commands x 10 handler result kinds (status/error/integer/bulk/array/nested carrying each nasty string, (nil,nil), (nil,err), (msg,err), nil bulk); (c) the example store preloaded with nasty keys/values/members and read back by 24 commands. Oracle: the whole reply log is a concatenation of complete strict-RESP2 values, with exactly one frame per request (fewer only if the server closed the connection).",
+		Rule:        "(a) every valid request shape of the grammar (<=12 shapes per command; thorough: all shapes, and pairs of positions for the first 40) with each argument position, command name included, replaced by each of 13 (thorough 23) nasty strings (CR, LF, CRLF followed by forged +OK / :1 / $-1 frames, NUL, 0xff, type characters), pairs of positions for the first shapes; 21 non-command top-level values (status, error, integer, bulk, null, empty array, null/integer/status/error/nested first element), alone and doubled inside a pipeline; (b) 29 trigger commands x 10 handler result kinds (status/error/integer/bulk/array/nested carrying each nasty string, (nil,nil), (nil,err), (msg,err), nil bulk); (c) the example store preloaded with nasty keys/values/members and read back by 24 commands. Oracle: the whole reply log is a concatenation of complete strict-RESP2 values, with exactly one frame per request (fewer only if the server closed the connection).",
 		Assumptions: []string{"the strict decoder in /verif/resp judges the reply stream", "panics/hangs are judged by C07/C03, not here"},
 		Run:         c04Run,
 		Replay:      c04Replay,
